@@ -115,6 +115,15 @@ PROPS = {
         "open_statements": ["c2v_with_radius_is_sup", "envelopes dominate the true distance (geometry; measured)", "nine-cells claim (geometry; measured)"],
         "assumptions": COMMON_ASSUME,
     },
+    "C20": {
+        "claim": "Theorems by inductive invariant over the step relation of get_or_create (after the repair of F5), for ANY number of threads and ANY interleaving: the invariant holds initially and is preserved by every step (hence in every reachable state); the object is constructed at most once; a thread that returns has seen the initialised slot (unreachable!() is unreachable) and exactly one construction has happened; no deadlock while some thread has not returned. Tie to the code by histories: cfg-guarded yield points at the four points of both factories (layers and cell-size constants) let a harness-side scheduler replay schedules with real threads; ALL 256 two-thread schedules of length 8 plus random 3-9-thread schedules are replayed (one fresh slot per history, a new process every 59 histories) and the per-step observations (point reached / blocked, construction counter) are compared with the model's; an unscheduled 16-thread x 30-depth stress run compares hash/centre/neighbours/cone/c2v results and counters; cargo +nightly miri (8 seeds) in the thorough tier searches for a data race on the real code (it found F5 before the fix).",
+        "note": "Proof of the protocol under stated assumptions: std::sync::Once as documented (mutual exclusion, blocking of late callers, happens-before), sequentially consistent steps; interleavings inside Once are not explored. Layer::new being a function of the depth only is tied by the correspondence of the layer constants through hash at all depths.",
+        "level": "proof",
+        "miri": True,
+        "trusted_base": ["Model/Once.lean: hand-written state machine of the factory", "hooks in /repo (cfg(cdshealpix_verif)): construction counters, yield points", "std::sync::Once modelled by its documentation"],
+        "open_statements": [],
+        "assumptions": COMMON_ASSUME + ["sequential consistency of the modelled steps; Once gives release/acquire ordering"],
+    },
     "C15": {
         "claim": 'Theorems: each pack pass never lengthens the list, pack ends on a fixed point of the pass (a further pass merges nothing), to_lower_depth rejects new_depth>=depth_max. The fixed-depth builder is modelled as a state machine with explicit drain points and compared with the code for all push-sequence families x 9 capacities x 9 depths; pack/to_lower_depth on exhaustive universes and random trees; oracles check pushed-set equality, map preservation, no four full siblings, the lower-depth rule.',
         "note": 'PARTIAL proof: structural pack theorems proved; pack_sem/fixed_builder_sem/to_lower_depth_sem open. Trusted: Lean kernel, hand-written model, Vec capacity assumption.',
@@ -127,6 +136,6 @@ PROPS = {
     },
 }
 
-HOOK_COMMITS = []
+HOOK_COMMITS = ["92c95dc"]
 
 NOT_CLAIMED = {("C%02d" % i): "check not built yet in this round (the technique applies; see DESIGN.md section 5)" for i in range(1, 21)}
